@@ -454,6 +454,7 @@ def campaign_aliases(ck: Check, n: int) -> None:
 
 
 _RECORDS: list = []
+_LEDGER: list = []  # (history, Imports object) of the last observed generate() with --collapse-root-models
 
 
 _RECORDER_BROKEN: list = []
@@ -539,13 +540,15 @@ def check_records_co(ck: Check, camp, case: dict, records: list):
 def build_doc(defs: dict, bases: dict, roots: dict | None = None) -> dict:
     """`defs`: dotted definition name -> list of dotted names it refers to (members);
     `bases`: dotted name -> dotted name of its base (allOf);
-    `roots`: dotted names (keys of `defs`) that are root models `array of $ref` instead of objects.
+    `roots`: dotted names (keys of `defs`) that are root models instead of objects: `array of $ref` to the
+    dotted name given, or the schema given (a dict: constrained scalar, array of scalars, …).
     Every object definition carries a member of its own (`m<k>`, k = position in the document), so that
     the class a reference reaches can be told from every other class of the package (oracle (5))."""
     d = {}
     for name, refs in defs.items():
         if roots and name in roots:
-            d[name] = {"type": "array", "items": {"$ref": f"#/definitions/{roots[name]}"}}
+            # a dotted name: `array of $ref`; a dict: the schema of the root model itself (constrained scalar, array of scalars, …)
+            d[name] = dict(roots[name]) if isinstance(roots[name], dict) else {"type": "array", "items": {"$ref": f"#/definitions/{roots[name]}"}}
             continue
         props = {"id": {"type": "integer"}, f"m{list(defs).index(name)}": {"type": "string"}}
         for i, r in enumerate(refs):
@@ -841,22 +844,24 @@ def static_oracle(files: dict[str, str]) -> list[dict]:
         # (3c) every name a class uses for a base or an annotation is bound in the module
         bound = top_level_names(tree) | set(dir(__import__("builtins")))
         for cls in [n for n in tree.body if isinstance(n, ast.ClassDef)]:
-            exprs = list(cls.bases) + [st.annotation for st in cls.body if isinstance(st, ast.AnnAssign)]
-            for ex in exprs:
+            exprs = [(None, b) for b in cls.bases] + [(ast.unparse(st.target), st.annotation) for st in cls.body if isinstance(st, ast.AnnAssign)]
+            for member, ex in exprs:
                 for nd in ast.walk(ex):
                     if isinstance(nd, ast.Name) and nd.id not in bound:
-                        fails.append({"check": "use_is_bound", "file": rel, "detail": f"class {cls.name} uses `{nd.id}`, which the module neither imports nor defines", "importer": importer, "is_init": is_init, "name": nd.id})
+                        fails.append({"check": "use_is_bound", "file": rel, "detail": f"class {cls.name} uses `{nd.id}`, which the module neither imports nor defines", "importer": importer, "is_init": is_init, "name": nd.id,
+                                      "cls": cls.name, "member": member})
     return fails
 
 
 IMPORT_SCRIPT = r"""
-import ast, importlib, json, os, sys, traceback, typing, unicodedata, warnings
+import ast, importlib, json, os, sys, traceback, types, typing, unicodedata, warnings
 warnings.simplefilter("ignore")
 root = sys.argv[1]
 sys.path.insert(0, root)
 spec = json.loads(open(sys.argv[2]).read())
 jobs, expect = spec["jobs"], spec["expect"]
 out = {}
+hints_other = {}
 
 def own_names(node):
     return frozenset(ast.unparse(st.target) for st in node.body if isinstance(st, ast.AnnAssign))
@@ -932,6 +937,27 @@ for pkg, modules in jobs.items():
                             break
                 if res[m]:
                     break
+                # ... and the class as the interpreter sees it: typing.get_type_hints resolves every annotation of the
+                # class and of its bases (each in the namespace of the module that wrote it), strings inside
+                # annotations included; a pydantic v2 model that is not complete is rebuilt with errors raised
+                obj = ns.get(cls.name)
+                if isinstance(obj, type) and getattr(obj, "__module__", None) == mod.__name__:
+                    try:
+                        if typing.is_typeddict(obj):
+                            # a TypedDict has no bases at run time: its __annotations__ hold the inherited members too,
+                            # and get_type_hints would evaluate those in THIS module. Each module answers for what it
+                            # wrote: the class's own members, in this module's namespace
+                            held = types.SimpleNamespace(__annotations__={k: v for k, v in obj.__annotations__.items() if k in own})
+                            typing.get_type_hints(held, globalns=dict(ns), include_extras=True)
+                        else:
+                            typing.get_type_hints(obj, include_extras=True)
+                        if getattr(obj, "__pydantic_complete__", True) is False and hasattr(obj, "model_rebuild"):
+                            obj.model_rebuild(raise_errors=True)
+                    except Exception as e:
+                        if isinstance(e, (NameError, AttributeError)) or type(e).__name__ == "PydanticUndefinedAnnotation":
+                            res[m] = f"type hints of {cls.name}: {type(e).__name__}: {e}"[:300]
+                            break
+                        hints_other[type(e).__name__] = hints_other.get(type(e).__name__, 0) + 1
                 # (5) each use of a foreign (or local) model reaches the class of the definition it refers to
                 for owner, field, target in exp["fields"]:
                     if frozenset(owner) != own or field not in values:
@@ -966,6 +992,7 @@ for pkg, modules in jobs.items():
                     culprit[m] = os.path.relpath(os.path.abspath(fn), top).replace(os.sep, "/")
                     break
     out[pkg] = {"modules": res, "reach": reach, "culprit": culprit}
+out["<hints_other>"] = hints_other
 print(json.dumps(out))
 """
 
@@ -1202,7 +1229,11 @@ def classify(fail: dict, case: dict, pred: dict | None, files: dict[str, str]) -
     base = {"oracle": fail["check"], "input_kind": "dotted_names" if "defs" in case else "file_tree"}
     rel = fail.get("file", "")
     comps = [c for f in files for c in f[: -len(".py")].split("/")]
-    if pred is None and case["opts"].get("collapse_root_models") and case.get("roots") and fail["check"] in ("use_is_bound", "use_reaches_definition"):
+    # The recorded finding C12-collapse-import is about the names that COME OUT OF a collapsed root model. A name that the
+    # module owes to a direct use of an ordinary class (member type / base class) is not excused by it: such a failure is
+    # classified by what else applies, else as a plain missing import.
+    owed = fail["check"] == "use_is_bound" and "defs" in case and "cls" in fail and directly_needed(case, fail)
+    if pred is None and not owed and case["opts"].get("collapse_root_models") and case.get("roots") and fail["check"] in ("use_is_bound", "use_reaches_definition"):
         return {**base, "mechanism": "collapse_root_model_import_lost"}
     if base["input_kind"] == "file_tree":
         mech = classify_tree(fail, case, files)
@@ -1212,6 +1243,8 @@ def classify(fail: dict, case: dict, pred: dict | None, files: dict[str, str]) -
     elif fail["check"] in ("names_importable", "parses") or pred is None:
         if any(keyword.iskeyword(c) for c in comps):
             return {**base, "mechanism": "keyword_module_name"}
+        if fail["check"] == "use_is_bound":
+            return {**base, "clause": "annotation-resolves", "mechanism": "missing-import"}
         return {**base, "mechanism": "other"}
     if fail["check"] in ("names_importable", "parses"):
         return {**base, "mechanism": "other"}
@@ -1236,7 +1269,7 @@ def classify(fail: dict, case: dict, pred: dict | None, files: dict[str, str]) -
             nominal, is_init = file_module(r)
             if r in pred["fmap"] and is_init and nominal and pred.get("fmap_plain", {}).get(r) != pred["fmap"][r]:
                 return {**base, "mechanism": "init_body_copied"}
-    if case["opts"].get("collapse_root_models") and case.get("roots") and fail["check"] in ("use_is_bound", "use_reaches_definition"):
+    if not owed and case["opts"].get("collapse_root_models") and case.get("roots") and fail["check"] in ("use_is_bound", "use_reaches_definition"):
         return {**base, "mechanism": "collapse_root_model_import_lost"}
     if fail["check"] == "use_is_bound" and case["opts"].get("use_exact_imports"):
         # one foreign class used as a base and as a member type in the same module: two aliases for one import
@@ -1261,14 +1294,47 @@ def classify(fail: dict, case: dict, pred: dict | None, files: dict[str, str]) -
         return {**base, "mechanism": sorted(mechs)[0]}
     if pred["checks"].get("covered") == "0" and pred["checks"].get("shadowfree") == "0":
         return {**base, "mechanism": "gap_not_filled"}
+    if fail["check"] == "use_is_bound":
+        return {**base, "clause": "annotation-resolves", "mechanism": "missing-import"}
     return {**base, "mechanism": "other"}
+
+
+def directly_needed(case: dict, fail: dict) -> bool:
+    """Stated on the INPUT, for a name that is unbound in a base-class expression or in the annotation of member `r<i>`
+    of class `cls` of the file: is THAT base / member, in the definition of that name written to that file, a DIRECT
+    reference to an ordinary (non-root-model) definition of another module? Such a use is written whatever
+    --collapse-root-models does to the root models around it, and it needs its import. (build_doc names the member of
+    the i-th reference `r<i>`; a class that cannot be found in the input by its module and name is not judged.)"""
+    me, _ = file_module(fail.get("file", ""))
+    roots = case.get("roots") or {}
+    member = fail.get("member")
+    for nm, refs in case["defs"].items():
+        if mod_of(nm) != me or cls_of(nm) != fail.get("cls") or nm in roots:
+            continue
+        if member is None:
+            r = case["bases"].get(nm)
+        else:
+            mt = re.fullmatch(r"r(\d+)", member)
+            r = refs[int(mt.group(1))] if mt and int(mt.group(1)) < len(refs) else None
+        return r is not None and r not in roots and mod_of(r) != me
+    return False
 
 
 def observe(case: dict) -> e2e.Result:
     install_recorder()
     _RECORDS.clear()
+    _LEDGER.clear()
     if "files" in case:
         return run_tree(case)
+    if case["opts"].get("collapse_root_models"):
+        # the real append / remove history of every Imports object of this run (C02's recorder, read-only use)
+        from .. import importledger
+
+        with importledger.recording() as rec:
+            res = e2e.run_generate(build_doc(case["defs"], case["bases"], case.get("roots")), model=case["model"], opts=case["opts"], modular=True)
+        if not res.hang:
+            _LEDGER.extend(zip(rec.histories, rec.instances))
+        return res
     return e2e.run_generate(build_doc(case["defs"], case["bases"], case.get("roots")), model=case["model"], opts=case["opts"], modular=True)
 
 
@@ -1321,12 +1387,17 @@ def check_case_co(ck: Check, camp, case: dict, pending: list, correspond: bool =
     camp.evaluations += 1
     res = observe(case)
     records = list(_RECORDS)
+    ledger = list(_LEDGER)
     if _RECORDER_BROKEN and not getattr(ck, "_c12_recorder_reported", False):
         ck._c12_recorder_reported = True
         ck.disagree(camp, {"real_call": "Parser.__change_from_import(models, imports, scoped_model_resolver, init)"},
                     "the method exists with the parameters the model of the import names was transliterated from", _RECORDER_BROKEN[0])
     if correspond and records:
         yield from check_records_co(ck, camp, case, records)
+    if correspond and ledger:
+        from . import c12_collapse
+
+        yield from c12_collapse.check_ledger_co(ck, camp, case, ledger)
     for k in case["opts"]:
         camp.hit(f"opt:{k}")
     camp.hit(f"kind:{case['model']}")
@@ -1479,6 +1550,8 @@ def flush_imports(ck: Check, camp, pending: list) -> None:
     except Exception as e:  # noqa: BLE001
         ck.infra_errors.append(f"import oracle: {e}")
         return
+    for k, v in results.get("<hints_other>", {}).items():
+        camp.hit(f"type_hints_raised_other_than_unresolved_name:{k}", v)
     for i, (case, files, pred, mechs) in enumerate(pending):
         camp.hit("packages_imported")
         kind = "dotted_names" if "defs" in case else "file_tree"
@@ -1506,7 +1579,8 @@ def flush_imports(ck: Check, camp, pending: list) -> None:
             m, e = sorted(errs.items())[0]
             mech = (mechs_of(m) or ["runtime_only"])[0]
             camp.hit(f"import_failed:{mech}")
-            ck.fail({"oracle": "import_subprocess", "input_kind": kind, "mechanism": mech}, case,
+            unresolved = e.startswith(("annotation of ", "type hints of "))
+            ck.fail({"oracle": "import_subprocess", "input_kind": kind, **({"clause": "annotation-resolves"} if unresolved else {}), "mechanism": mech}, case,
                     f"importing {m.split('.', 1)[-1] if '.' in m else '<root>'} in a fresh interpreter: {e}")
         # (5): the class reached is not the class of the referenced definition. It is a consequence of a recorded
         # defect only where that defect is about a name bound to another module's object.
@@ -1796,6 +1870,7 @@ def run(ck: Check) -> None:
         "the order of module paths is the one Python's sorted(key=(len, path), reverse=True) yields (the harness sorts; the theorems only use deepest-first)",
         "the condition of the package-file extra dot is modelled on name lists (importer path is a prefix of the importee path); the code tests it on dotted strings with a trailing '.', which is the same for names without dots",
         "names of imports: the scoped resolver is modelled for the calls __change_from_import makes (add(path, name) with default flags; Model/Modules.Scope.add, compared with a real ModelResolver and with the recorded calls of every generated module); get_valid_field_name is a parameter of the theorem (identity on the class names met); the `module.Class` spelling of each use and the later passes (__collapse_root_models, __change_imported_model_name) are checked by oracle (5) only",
+        "the import block of a module under --collapse-root-models: WHICH appends and removals the passes make is taken from the real run (vlib/importledger records every Imports object of every generate() with --collapse-root-models); the recorded history is checked against C02's ledger model (driver imports.ledger) and the per-use discipline (c12_collapse.uses_discipline); Props/C12 import_line_survives_iff_use_remains is about disciplined histories",
         "oracle (5) tells classes by the set of members their class statement declares: generated documents give every definition a member of its own; references to root models (arrays) and documents with two equal member sets are outside it (counted as reach_skipped)",
         "Python NFKC-normalises identifiers in source text (import statements included) but not the strings given to importlib: the import oracle imports every module by its NFKC-normalised dotted name; NFKC fixes ASCII (checked on all 128 characters each run)",
     ]
@@ -1804,11 +1879,12 @@ def run(ck: Check) -> None:
     campaign_module_path(ck, 400 if quick else 4000)
     campaign_aliases(ck, 400 if quick else 4000)
     campaign_e2e(ck, 200 if quick else 3000, 30 if quick else 400, 3 if quick else 4, n_clash=120 if quick else 1500)
-    from . import c12_trees
+    from . import c12_collapse, c12_trees
 
+    c12_collapse.campaign_family(ck, 60 if quick else 1500)
     c12_trees.campaign_setter(ck, 400 if quick else 4000)
     c12_trees.campaign_rich_trees(ck, 150 if quick else 2500)
-    ck.search_hooks += [search_from_disagreements, c12_trees.search_rich_trees, search_module_names, search_same_short_name]
+    ck.search_hooks += [c12_collapse.search_family, search_from_disagreements, c12_trees.search_rich_trees, search_module_names, search_same_short_name]
     known_findings(ck)
 
 
